@@ -67,7 +67,7 @@ def lib_sources():
 class Variant:
     """A build variant: '<base>[+mod]*'.
     base: prod | asan | msan | tsan | clang | tsanclang | asanclang | gcc
-    mods: W32 UNAL0 NEUTRAL NOSIMD NOAVX2 NOBUILTIN NATIVE NDEBUG UCHAR O0 O1 O2 O3 Os Og"""
+    mods: W32 UNAL0 NEUTRAL NOSIMD NOAVX2 NOBUILTIN NATIVE NDEBUG UCHAR LTO O0 O1 O2 O3 Os Og"""
 
     def __init__(self, name):
         self.name = name
@@ -77,6 +77,7 @@ class Variant:
         self.cfg = {}
         self.nobuiltin = False
         self.extra = []
+        self.lto = False
         opt = None
         for m in self.mods:
             if m == "W32": self.cfg["64BIT"] = 0
@@ -85,6 +86,7 @@ class Variant:
             elif m == "NOSIMD": self.cfg.update({"VEC128_MATH": 0, "VEC256_MATH": 0})
             elif m == "NOAVX2": self.cfg["VEC256_MATH"] = 0
             elif m == "NATIVE": self.extra.append("-march=native")     # user-style flags applied to every file: every __SSE3__/__SSSE3__/__AVX2__-conditional arm of the sources is compiled in
+            elif m == "LTO": self.extra += ["-flto", "-ffat-lto-objects"]; self.lto = True     # link-time optimisation: calls across files (e.g. a wipe helper) become visible to the optimiser
             elif m == "NDEBUG": self.extra.append("-DNDEBUG")           # release-style build: assert() compiled out
             elif m == "UCHAR": self.extra.append("-funsigned-char")     # plain char unsigned, as on ARM/PowerPC ABIs
             elif m == "NOBUILTIN": self.nobuiltin = True     # memcpy/memset stay calls, so sanitizer interceptors see them
@@ -139,7 +141,7 @@ class Variant:
 
     def harness_flags(self):
         o = ["-O1"] if self.san else ["-O2"]
-        return o + self.dbg + ["-std=gnu11", "-Wall", "-Wno-unused-parameter"] + self.san + ["-D" + GUARD]
+        return o + self.dbg + ["-std=gnu11", "-Wall", "-Wno-unused-parameter"] + self.san + ["-D" + GUARD] + (["-flto"] + list(self.opt) if self.lto else [])
 
 
 _pool = None
@@ -350,7 +352,7 @@ def build_cxx_driver(name, cxx_sources, c_sources, vname, incs=(), extra=(), lib
     cflags = v.harness_flags()
     # the C++ sources under test (the Arduino classes) are compiled at the variant's own optimisation level (-O0/-Os matter: without
     # inlining, same-named inline helpers of different files collide at link time); the harness C files keep their usual level
-    cxxflags = [f for f in cflags if not f.startswith("-std=") and not re.fullmatch(r"-O[0-3sg]", f)] + list(v.opt) + ["-std=gnu++11", "-Wno-unused-variable"]
+    cxxflags = [f for f in cflags if not f.startswith("-std=") and not re.fullmatch(r"-O[0-3sg]", f)] + list(v.opt) + [f for f in v.extra if f != "-march=native" or True] + ["-std=gnu++11", "-Wno-unused-variable"]
     inc = ["-I" + os.path.join(REPO, "include"), "-I" + HARNESS] + ["-I" + i for i in incs]
 
     def comp(job):
